@@ -104,7 +104,7 @@ fn fmt_log_out(out: &mut String, log: &[Entry]) {
     let _ = writeln!(out, "{}", s);
 }
 
-pub fn fmt_actions(out: &mut String, acts: &[TriggerAction<VInstant>]) {
+pub fn fmt_actions<T: maybenot::time::Instant<Duration = std::time::Duration>>(out: &mut String, acts: &[TriggerAction<T>]) {
     for a in acts {
         match a {
             TriggerAction::Cancel { machine, timer } => {
@@ -525,6 +525,54 @@ fn copy_fw(f: &Framework<Vec<Machine>, ScriptRng, VInstant>, c: &FwCase, how: Co
     }
 }
 
+/// the same case on the default clock: `std::time::Instant` / `std::time::Duration` through the crate's own
+/// `impl Instant` / `impl Duration` (time.rs), instants laid out around one base instant.  `None` when an
+/// instant of the case cannot be represented (before the platform's epoch or out of range).
+fn run_actions_std(c: &FwCase) -> Option<Vec<String>> {
+    use std::time::{Duration as SD, Instant as SI};
+    let base = SI::now();
+    let conv = |t: i128| -> Option<SI> {
+        if t >= 0 {
+            if t > u64::MAX as i128 { return None; }
+            base.checked_add(SD::from_nanos(t as u64))
+        } else {
+            if -t > u64::MAX as i128 { return None; }
+            base.checked_sub(SD::from_nanos((-t) as u64))
+        }
+    };
+    let t0 = conv(c.t0)?;
+    let mut times = Vec::new();
+    for (t, _) in c.calls.iter() {
+        times.push(conv(*t)?);
+    }
+    let mut res = Vec::new();
+    let rng = mk_rng(c);
+    let r = catch_unwind(AssertUnwindSafe(|| Framework::new(c.machines.clone(), c.fp, c.fb, t0, rng)));
+    let mut f = match r {
+        Ok(Ok(f)) => f,
+        _ => return Some(res),
+    };
+    for (i, (_, evs)) in c.calls.iter().enumerate() {
+        let now = times[i];
+        let r = catch_unwind(AssertUnwindSafe(|| {
+            let acts: Vec<TriggerAction<SI>> = f.trigger_events(evs, now).cloned().collect();
+            acts
+        }));
+        match r {
+            Ok(acts) => {
+                let mut o = String::new();
+                fmt_actions(&mut o, &acts);
+                res.push(o);
+            }
+            Err(_) => {
+                res.push("panic".into());
+                break;
+            }
+        }
+    }
+    Some(res)
+}
+
 /// `o DET ok|fail`: the same inputs give the same actions (second instance, and a clone taken mid-history).
 pub fn det_line(c: &FwCase, p: &mut Prng) -> String {
     let a = run_actions_only(c, None);
@@ -533,8 +581,12 @@ pub fn det_line(c: &FwCase, p: &mut Prng) -> String {
     let d = run_actions_only(c, at);
     let e = run_actions_copy(c, at, CopyHow::FromFresh);
     let g = run_actions_copy(c, at, CopyHow::FromUsed);
-    if a == b && a == d && a == e && a == g {
+    let st = run_actions_std(c);
+    let std_ok = st.as_ref().map(|x| *x == a).unwrap_or(true);
+    if a == b && a == d && a == e && a == g && std_ok {
         "det ok\n".into()
+    } else if a == b && a == d && a == e && a == g {
+        format!("det fail clone_at={:?} default-clock (std::time::Instant gives other actions than the same instants on the virtual clock)\n", at)
     } else {
         let which = if a != b { "second-instance" } else if a != d { "clone" } else if a != e { "clone_from-into-fresh-instance" } else { "clone_from-into-used-instance" };
         let panicked = !a.iter().any(|x| x == "panic") && [&b, &d, &e, &g].iter().any(|v| v.iter().any(|x| x == "panic"));
